@@ -29,7 +29,7 @@ RULE = ("full product of the listed domains; one case = one configuration (both 
         "reference matrix is not the identity (at least one transformed axis longer than 1, or a resize)")
 ASSUMPTIONS = ["tolerance 1e-9 (complex128), 2e-5 where the library computes in single precision (complex64 and real inputs)"]
 CHUNK = 40
-DT = {"c128": np.complex128, "c64": np.complex64, "f64": np.float64, "f32": np.float32}
+DT = {"c128": np.complex128, "c64": np.complex64, "f64": np.float64, "f32": np.float32, "i64": np.int64, "bool": np.bool_}
 
 
 def bounds(tier):
@@ -57,6 +57,8 @@ def gen_cases(tier, seed):
                     for dt in DT:
                         if dt != "c128" and len(s) > 2 and norm is None and not (T and len(s) == 3):
                             continue
+                        if dt in ("i64", "bool") and (len(s) > 2 or norm is None):
+                            continue   # integer / boolean arrays (masks, label images): 1-D and 2-D, orthonormal scaling
                         if len(s) == 4 and dt in ("f32", "c64") and T and ax is not None and len(ax) > 1:
                             continue
                         cases.append(dict(kind="fft", shape=list(s), axes=None if ax is None else list(ax),
